@@ -1,0 +1,13 @@
+//go:build verif
+
+package consul
+
+import "github.com/hashicorp/consul/api"
+
+// Verification hook for the redirect check (build tag verif). No behaviour is changed.
+
+// VerifC13Build runs routecmd.build on one catalog entry: the route commands a registration with
+// urlprefix- tags (a redirect tag 'urlprefix-host/path redirect=<code>,<url> strip=…' among them) yields.
+func VerifC13Build(svc *api.CatalogService, prefix string) []string {
+	return routecmd{svc: svc, prefix: prefix}.build()
+}
